@@ -257,7 +257,7 @@ def history(rnd, idx, tier):
                               explain=rnd.random() < 0.4))
     ops.append(invoke([], j=2))
     ops.append(invoke([], j=2))
-    return scenario("hist-%d" % idx, ops, fam="hist")
+    return scenario("hist-%d" % idx, ops, fam="hist", cdir=rnd.choice(["", "", "", "proj", "a/b"]))
 
 
 def regen_history(rnd, idx, tier):
@@ -331,7 +331,46 @@ def regen_history(rnd, idx, tier):
         ops.append(inv(tg, outcomes))
     ops.append(inv())
     ops.append(inv())
-    return scenario("regen-%d" % idx, ops, fam="regen", versions=versions)
+    return scenario("regen-%d" % idx, ops, fam="regen", versions=versions, cdir=rnd.choice(["", "", "proj"]))
+
+
+def regen_pool_history(rnd, idx, tier):
+    """Regeneration changes how the pools are declared (C04 x C17): the depth is lowered or
+    raised, a pool appears or goes away.  What is enforced after the reload must be what the
+    text now on disk declares.  Several independent pooled steps are dirty and -j is large, so the
+    declared depth is the binding limit."""
+    fname = "build.ninja"
+    nst = rnd.randint(3, 5)
+    def version(depth, use_pool, cmdv):
+        steps = [step([fname], ["gen.in"], cmd="regen v%d" % cmdv, eff={"kind": "gen", "gen": "cur", "reads": []})]
+        for i in range(1, nst + 1):
+            steps.append(step(["o%d" % i], ["s%d" % i], cmd="cmd%d" % i, pool="pl" if use_pool else ""))
+        return graph(steps, pools=[("pl", depth)] if depth is not None else [])
+    a, b = rnd.choice([((3, True), (1, True)), ((2, True), (1, True)), ((0, True), (1, True)),
+                       ((None, False), (1, True)), ((1, True), (3, True)), ((2, True), (None, False)),
+                       ((4, True), (2, True))])
+    gs = [version(a[0], a[1], 1), version(b[0], b[1], 2), version(b[0], b[1], 2)]
+    versions = {}
+    for k, g in enumerate(gs):
+        for s in g["steps"]:
+            if s["eff"]["kind"] == "gen":
+                s["eff"]["gen"] = "v%d" % min(k + 1, len(gs) - 1)
+        versions["v%d" % k] = {"text": render_manifest(g), "g": g, "extra": []}
+    ops = [{"op": "manifest", "name": fname, "ver": "v0"}, {"op": "write", "path": "gen.in"}]
+    for i in range(1, nst + 1):
+        ops.append({"op": "write", "path": "s%d" % i})
+    order = list(range(1, nst + 2)); rnd.shuffle(order)
+    pol = {"kind": "all"} if rnd.random() < 0.5 else {"kind": "prio", "order": order}
+    # first invocation: the generator has no record, runs, writes v1; everything else is built
+    # under the pools v1 declares
+    ops.append(invoke([], j=rnd.randint(3, 5), file=fname, policy=pol))
+    ops.append({"op": "write", "path": "gen.in"})
+    for i in range(1, nst + 1):
+        if rnd.random() < 0.8:
+            ops.append({"op": "write", "path": "s%d" % i})
+    ops.append(invoke([], j=rnd.randint(3, 5), file=fname, policy={"kind": "prio", "order": order}))
+    ops.append(invoke([], j=2, file=fname))
+    return scenario("regenpool-%d" % idx, ops, fam="regen", versions=versions, max_orders=24)
 
 
 def generate(seed, tier):
@@ -340,4 +379,5 @@ def generate(seed, tier):
     n_regen = 200 if tier == "quick" else 4000
     scns = [history(rnd, i, tier) for i in range(n_hist)]
     scns += [regen_history(rnd, i, tier) for i in range(n_regen)]
+    scns += [regen_pool_history(rnd, i, tier) for i in range(40 if tier == "quick" else 600)]
     return scns
